@@ -20,7 +20,7 @@ from vlib.gen.docs import Box, fmt, node, serialize
 
 AXIS = [
     "in", "in", "in", "lo-out", "hi-out", "lo-str", "hi-str", "lo-str", "hi-str", "span", "span",
-    "touch-lo-out", "touch-hi-out", "touch-lo-in", "touch-hi-in", "flush",
+    "touch-lo-out", "touch-hi-out", "touch-lo-in", "touch-hi-in", "flush", "lo-graze", "hi-graze",
 ]
 
 KINDS = [
@@ -72,6 +72,11 @@ def _interval(draw, a, L, kind):
         lo, hi = a, a + f(5, 60)
     elif kind == "touch-hi-in":
         lo, hi = b - f(5, 60), b
+    elif kind in ("lo-graze", "hi-graze"):
+        # sticks out by a hair (0.02% .. 0.09% of the side): still has to be cut at the border
+        d = draw(st.sampled_from([0.0002, 0.0005, 0.0009])) * L
+        lo, hi = (a - d, a + f(5, 70)) if kind == "lo-graze" else (b - f(5, 70), b + d)
+        return round(lo, 4), round(hi, 4)
     else:  # flush
         lo, hi = a, b
     lo, hi = round(lo, 2), round(hi, 2)
